@@ -8,7 +8,9 @@ META = {
   "dispatches on their value and writes it back as a constant, so that each scenario is executed on its own path (harness/C18_core.h)",
   "printf (P_ERROR/P_WARNING) has an empty body; units using <ctype.h> are compiled with -D__NO_CTYPE (isspace/isdigit are calls to CBMC's C-locale models)",
   "phashtable: 5 buckets through the PLIBSYS_VERIF hook, keys 1, 6, 1|2, 11 (one collision chain, one replacement)",
-  "pcryptohash: the static compression functions are replaced by no-ops (their arithmetic is C11's subject); only the units of the hash types of a query are linked",
+  "pcryptohash: the static compression functions (their arithmetic is C11's subject) are replaced by a cheap mixing step on the state the unit's own *_digest() accessor points to, "
+  "so that every compression call is visible in the digest; only the units of the hash types of a query are linked; results are compared with a reference run of the same calls "
+  "without failure executed in the same query",
   "psocketaddress: inet_pton/inet_ntop/getaddrinfo/freeaddrinfo are trivial stand-ins with a getaddrinfo-result ledger (harness/C18_core_netstub.h)",
   "pdir-posix: opendir/readdir/rewinddir/closedir/stat/mkdir/rmdir = models/dir_model.c (stream ledger, closedir must hit an open stream; directory of 2 entries)",
   "plibraryloader-posix: dlopen/dlsym/dlclose/dlerror and access() = models/dl_model.c (handle ledger, dlclose must hit an open handle)",
@@ -18,7 +20,7 @@ META = {
   "shorter lists from p_hash_table_keys/values; a directory entry of type OTHER when the stat() path cannot be allocated; a missing error report when the report itself cannot be allocated; "
   "p_ini_file_parse returning TRUE with sections/keys silently missing (a key may land in the preceding section when the copy of a '[section]' line fails); NULL names in the lists of "
   "p_ini_file_sections/keys when the name copy fails; p_ini_file_parameter_string returning the default value",
-  "known findings (findings/C18_core.json) exclude exactly: the request p_strdup(path) #2/#3 of p_dir_new, p_strdup(d_name) #2 of p_dir_get_next_entry, and the list-node requests of "
+  "open known findings (known_findings.json, ids C18_ini_*; the three C18_dir_* ones are fixed in /repo) exclude exactly: the request p_strdup(path) #2/#3 of p_dir_new, p_strdup(d_name) #2 of p_dir_get_next_entry, and the list-node requests of "
   "pinifile.c that follow an owned object (key node, section node, last-section node incl. its from-k-on positions, name/item nodes of sections/keys/parameter_list)",
  ],
  "outside": [
@@ -33,7 +35,9 @@ MANIFEST = {
  "level_text": "Bounded model checking of the real plist/phashtable/ptree*/pstring/perror/pcryptohash/psocketaddress/pdir-posix/plibraryloader-posix/pinifile/pmem units: "
                "per module one script (constructor, operations, destructor) runs with a failing allocator installed through the public p_mem_set_vtable; the index k of the failing "
                "request and the mode (only k / k and all later) are solver variables ranging over every request of the script, so the SAT solver decides for each k that every call "
-               "returns, returns its documented failure or degraded value, leaves earlier objects observably unchanged and usable, and that the allocation / DIR-stream / dl-handle ledgers "
+               "returns, returns its documented failure or degraded value, leaves earlier objects observably unchanged and usable (an operation or read that failed for lack of memory is retried "
+               "and must then give the result of the un-failed run: list/hash-table/tree inserts, error setters, INI readers, address text, directory enumeration, hash text and digests against a "
+               "reference run), and that the allocation / DIR-stream / dl-handle ledgers "
                "return to their initial value once everything is freed; CBMC's pointer and bounds checks stand for 'no crash'. Right level because the defects live at the 2nd..n-th "
                "allocation of a call, which the unit tests never reach, while each script has at most ~50 requests so all positions can be decided exhaustively.",
  "level_note": "Trusted: CBMC 6.11 + SAT back end; allocator ledger model; directory, loader, resolver and stdio/string models; hash compression stubs; 5-bucket hash table and 15-byte INI "
@@ -68,6 +72,7 @@ def iniq(name, filen, kmax, defs=(), klo=0, khi=None, **kw):
     L = 15
     uw = C16.uw(L, 7, 4, 4)
     uw.update(kloops(kmax))
+    uw.update({"script.%d" % i: 3 for i in range(7)})     # retry loops of the readers
     uw.update({"c18_streq.0": 65, "put_file.0": 40, "free_strings.0": 5, "vm_strlen.0": 40, "vm_memcpy.0": 41})   # error text of the fopen failure: 31 characters
     return Q(name, "harness/C18_core_ini.c", units=INI_UNITS, models=ALLOC + ["models/C16_foreach.c", "models/cstring_model.c", "models/stdio_model.c"],
              defs=["INIFILE=%d" % filen, "KMAX=%d" % kmax, "K_LO=%d" % klo, "K_HI=%d" % (kmax if khi is None else khi), "__NO_CTYPE", "PLIBSYS_VERIF", "PLIBSYS_VERIF_INI_MAX_LINE=%d" % L] + list(defs),
@@ -78,7 +83,7 @@ def iniq(name, filen, kmax, defs=(), klo=0, khi=None, **kw):
 TREE_UNITS = ["src/ptree.c", "src/ptree-bst.c", "src/ptree-rb.c", "src/ptree-avl.c", "src/pmem.c"]
 def tree(tt, nm, n):
     d = n + 2
-    uw = {"script.0": n + 1, "script.1": n + 1,  "same_as_model.0": n + 1, "ref_find.0": n + 1, "ref_insert.0": n + 1, "ref_insert.1": n + 1,
+    uw = {"script.0": n + 2, "script.1": n + 2, "script.2": n + 2, "same_as_model.0": n + 1, "ref_find.0": n + 1, "ref_insert.0": n + 1, "ref_insert.1": n + 1,
           "p_tree_lookup.0": d, "p_tree_foreach.0": 2 * n + 2, "p_tree_foreach.1": d, "p_tree_clear.0": 2 * n + 2, "p_tree_clear.1": n + 1,
           "p_tree_bst_insert.0": d, "p_tree_bst_remove.0": d, "p_tree_bst_remove.1": d,
           "p_tree_rb_insert.0": d, "p_tree_rb_remove.0": d, "p_tree_rb_remove.1": d, "pp_tree_rb_balance_insert.0": d, "pp_tree_rb_balance_remove.0": d,
@@ -126,12 +131,14 @@ def queries0(tier):
         hu = ["src/pcryptohash.c", "src/pcryptohash-sha3.c", "src/pmem.c"] if sha3 else [u for u in HASH_UNITS if "sha3" not in u]
         hp = [x for x in HASH_PROCESS if ("sha3" in x) == sha3]
         qs.append(Q("cryptohash_" + nm, "harness/C18_core_cryptohash.c", units=hu, models=ALLOC,
-                    defs=["KMAX=3", "FAILMODE_ONCE", "NCHOICE=%d" % len(types), "TYPES=" + ",".join(map(str, types))],
-                    export_local=True, remove_bodies=hp, unwind=150, unwindset=kloops(3, len(types)), object_bits=12,
-                    flags=["--no-array-field-sensitivity"],
-                    funcs=["p_crypto_hash_new", "p_crypto_hash_update", "p_crypto_hash_get_string", "p_crypto_hash_get_digest", "p_crypto_hash_free"] +
+                    defs=["KMAX=3", "NCHOICE=%d" % len(types), "TYPES=" + ",".join(map(str, types))] + (["WITH_SHA3"] if sha3 else []),
+                    export_local=True, remove_bodies=hp, unwind=150,
+                    unwindset=dict(kloops(3, len(types)), **{"c18_prologue.0": 131, "c18_prologue.1": len(types) + 1, "script.0": 131, "script.1": 3, "same_digest.0": 65}),
+                    object_bits=12, flags=["--no-array-field-sensitivity"],
+                    funcs=["p_crypto_hash_new", "p_crypto_hash_update", "p_crypto_hash_get_string", "p_crypto_hash_get_digest", "p_crypto_hash_reset", "p_crypto_hash_free"] +
                           ["p_crypto_hash_%s_new" % HN[t] for t in types],
-                    bounds={"types": [HN[t] for t in types], "data": "3 concrete bytes", "k": "0..3 (every request of the script); from-k-on coincides with once here because a failed constructor ends the script and get_string makes the last request"}, timeout=900))
+                    bounds={"types": [HN[t] for t in types], "data": "concrete bytes", "k": "0..3 (every request of the script), once and from-k-on; failed constructor and failed get_string are retried once",
+                            "reference": "same calls without failure, executed in the same query"}, timeout=900))
     qs.append(Q("sockaddr", "harness/C18_core_sockaddr.c", units=["src/psocketaddress.c", "src/pstring.c", "src/pmem.c"], models=ALLOC, defs=["KMAX=12", "MERGED"],
                 unit_defs=["-D__NO_CTYPE"], unwind=41, unwindset=kloops(12),
                 funcs=["p_socket_address_new", "p_socket_address_new_any", "p_socket_address_new_loopback", "p_socket_address_new_from_native",
